@@ -18,12 +18,12 @@ REAL = ["lian.common_structs.PathManager", "PathTrie", "TrieNode", "CallPath", "
 STUBS = []
 ASSUMPTIONS = ["the empty path is not generated (the property does not say whether () is a path)",
                "call-site validity = no negative caller/stmt/callee id (CallPath.has_any_negative)"]
-PROBES = ["prefix_eviction", "reject_prefix", "reject_dup", "reject_negative", "reject_badtype",
+PROBES = ["invivo_adds", "invivo_prefix_evictions", "invivo_prefix_rejections", "prefix_eviction", "reject_prefix", "reject_dup", "reject_negative", "reject_badtype",
           "add_after_remove_same", "add_after_remove_prefix", "add_after_evict_then_remove",
           "remove_hit", "remove_miss", "branching"]
 TIERS = {
-    "quick": {"runs": 40000, "budget_s": 120, "chunk": 1000, "selftest": 200, "per_run_timeout": 60},
-    "thorough": {"runs": 0, "budget_s": 900, "chunk": 5000, "selftest": 1000, "per_run_timeout": 60},
+    "quick": {"runs": 40000, "budget_s": 180, "chunk": 500, "selftest": 200, "per_run_timeout": 300},
+    "thorough": {"runs": 0, "budget_s": 900, "chunk": 2500, "selftest": 1000, "per_run_timeout": 300},
 }
 
 SITES = [(1, 10, 2), (2, 20, 3), (3, 30, 1)]
@@ -34,6 +34,8 @@ _cs = None
 
 def setup_worker():
     global _cs
+    from sim import invivo
+    invivo.worker_setup()
     import lian.common_structs as cs
     _cs = cs
 
@@ -88,7 +90,12 @@ def _t(p):
 
 # ----------------------------------------------------------------------------- generator
 
+P_INVIVO = {"quick": 0.0009, "thorough": 0.001}
+
+
 def gen_knobs(rng, tier):
+    if rng.random() < P_INVIVO.get(tier, 0.001):
+        return {"population": "invivo"}
     return {
         "population": "default",
         "n_sites": rng.choice([2, 3, 3]),
@@ -129,6 +136,9 @@ def _biased_path(rng, k, m):
 
 
 def generate(rng, k):
+    if k["population"] == "invivo":
+        from sim import invivo
+        return invivo.gen_invivo_ops(rng)
     m = Model()
     ops = []
     kinds = ["add"] * k["w_add"] + ["remove"] * k["w_remove"] + ["exists"] * k["w_exists"]
@@ -172,8 +182,32 @@ def _view(paths):
     return out
 
 
+def execute_invivo(trace):
+    """the PathManager that P3 creates during a real analysis, fed with P3's own add/remove sequence."""
+    from sim import invivo
+    from sim.core import digest_hex
+    out, rep = invivo.run_ops(trace["ops"])
+    st = rep.get("stats", {})
+    probes = {}
+    if st.get("c19_adds"):
+        probes["invivo_adds"] = st["c19_adds"]
+    if st.get("c19_rel_extension_of_stored"):
+        probes["invivo_prefix_evictions"] = st["c19_rel_extension_of_stored"]
+    if st.get("c19_rel_proper_prefix_of_stored"):
+        probes["invivo_prefix_rejections"] = st["c19_rel_proper_prefix_of_stored"]
+    vs = rep.get("c19", [])
+    violation = None
+    if vs:
+        violation = {"step": len(trace["ops"]) - 1, "cls": "invivo:" + vs[0]["cls"], "detail": dict(vs[0], count=len(vs), run_status=out.get("status"))}
+    log = [out.get("status"), out.get("detail", ""), st.get("c19_adds"), st.get("c19_removes"), [v["cls"] for v in vs]]
+    return {"violation": violation, "probes": probes, "states": set(), "trans": set(), "steps": st.get("c19_adds", 0) + st.get("c19_removes", 0),
+            "log": digest_hex(log), "extra": {"invivo_monitor_errors": st.get("c19_monitor_errors", 0)}}
+
+
 def execute(trace):
     k = trace["knobs"]
+    if k.get("population") == "invivo":
+        return execute_invivo(trace)
     pm = _cs.PathManager()
     m = Model()
     probes = {}
@@ -302,12 +336,16 @@ def _rename(ops):
 
 
 def signature(trace, violation):
+    if violation["cls"].startswith("invivo:"):
+        return violation["cls"]
     return f"{violation['cls']}:{_rename(trace['ops'])}"
 
 
 def simplify(trace):
     """candidates: shorten a path by one site; replace a site by the first site of the alphabet."""
     ops = trace["ops"]
+    if trace["knobs"].get("population") == "invivo":
+        return
     for i, op in enumerate(ops):
         if "p" not in op:
             continue
